@@ -1,5 +1,6 @@
 """C20 - message-type classification is total and consistent (DESIGN.md 6/C20)."""
 import json
+import re
 import vlib
 
 
@@ -7,6 +8,22 @@ def run(ctx, replay):
     drv = ctx.build_harness()
     trace = ctx.path("c20.ndjson")
     ctx.drive(drv, ["c20", trace])
+    # a fresh process whose first use of the library is concurrent display of every type
+    trace2 = ctx.path("c20_conc.ndjson")
+    r2 = ctx.drive(drv, ["c20", trace2, "concurrent"], ok_codes=(0, 1, 2))
+    fatal = None
+    conc = []
+    if r2.returncode != 0:
+        m = re.search(r"fatal error: [^\n]*", r2.stderr)
+        if not m:
+            raise vlib.Inconclusive("concurrent-display driver failed rc=%d:\n%s" % (r2.returncode, r2.stderr[-2000:]))
+        fatal = m.group(0)
+        conc = [dict(t=t, conc=True, ok=False) for t in range(4096)]     # the process died: no type was displayed to the end
+    else:
+        conc = vlib.read_ndjson(trace2)
+    with open(trace, "a") as f:
+        for e in conc:
+            f.write(json.dumps(e) + "\n")
     events = vlib.read_ndjson(trace)
     res = ctx.tlc_trace("C20_Trace", "C20_Trace.cfg", trace)
     ctx.traces += 1
@@ -14,15 +31,24 @@ def run(ctx, replay):
         ctx.count_case((e["t"], e.get("t2")), nontrivial=True)
     for t in (-1, 1005, 1074, 1137, 1230, 4095):
         ctx.sample(events[t + 2])
+    conc_bad = 0
     for i in res["bad"]:
         e = events[i - 1]
+        if e.get("conc"):
+            conc_bad += 1
+            if conc_bad > 1:
+                continue        # one report for the concurrent run
+            ctx.violation(dict(kind="display-under-concurrent-first-use", what=(fatal or "panic or empty display")[:60]),
+                          dict(event=e, stderr=r2.stderr[-3000:]))
+            continue
         ctx.violation(dict(kind="time-dispatch" if "t2" in e else "classification", type=e["t"]), dict(event=e))
-    ctx.extra["types_enumerated"] = sum(1 for e in events if "t2" not in e)
+    ctx.extra["types_enumerated"] = sum(1 for e in events if "t2" not in e and not e.get("conc"))
+    ctx.extra["types_displayed_concurrently"] = sum(1 for e in events if e.get("conc"))
     ctx.extra["dispatch_pairs"] = sum(1 for e in events if "t2" in e)
     return ctx.finish(
         level="model_checking",
         rule="one case per message type in -2..4095 (complete enumeration, 4098 events, order and completeness checked by the spec); "
-             "each event carries every classifier's answer on that type and on a synthetic CRC-valid frame of that type; plus all 48 ordered pairs of MSM types of different timed constellations (the time conversion of one must not be disturbed by the other)",
+             "each event carries every classifier's answer on that type and on a synthetic CRC-valid frame of that type; plus all 48 ordered pairs of MSM types of different timed constellations (the time conversion of one must not be disturbed by the other); plus one event per type 0..4095 from a fresh process whose first use of the library is eight goroutines displaying a frame of every type at once",
         assumptions=["the synthetic frame (timestamp 1000, all-zero body, 40-byte payload) is well-formed for every decoder family, so "
                      "'accepted by exactly its own family' is observable as err == nil",
                      "constellation names are compared after normalisation (case-insensitive token gps/glonass/galileo/sbas/qzss/beidou/navic)"],
